@@ -409,8 +409,84 @@ def srecsLine (s : St) (x : XS) (s0 : St) (x0 : XS) (n : Nat) : String :=
   let other := wei ((diffList x.xb x0.xb).sum + x.rx.sum + (s.zero - s0.zero))
   s!"a={showList ((diffList s.bal s0.bal).map wei)} t={showList ((diffList s.tok s0.tok).map wei)} f={foundationWei s x - foundationWei s0 x0} cb={showList (dy.take n)} sup={showList (dy.drop n)} pl=0 p={wei (pool s - pool s0)} other={other} mint=0 unk=0"
 
+/-! TOKEN confidential transactions (`tokchain … tokdec=<d>`): the token's commitment unit is 10^(d−8) (1 below 8 decimals);
+amounts of the ops are in units of the token; the account side of the model stays in 10^10 base units. -/
+
+def unitOfDec (d : Int) : Int := if d < 8 then 1 else (10 : Int) ^ (d - 8).toNat
+
+def tbalLine (s : St) (x : XS) : String :=
+  let ws := x.tw.map (fun outs => "+".intercalate (sortStr ((outs.filter (!·.spent)).map (fun o => toString o.amount))))
+  s!"t={showList s.tok} tw={"|".intercalate ws} tpool={tokPool x} unit={x.tunit} toksupply={tokenTotalX s x}"
+
+def minGas : Int := 500000
+
+def tokOp (d : DR) (toks : List String) : Option (DR × String) :=
+  let x := d.x
+  let rem := argI toks "rem" 0
+  -- rem=<base units> on top of the amount: a whole number of the token's units simply adds to it
+  let amount := argI toks "amount" 1 + (if rem % x.tunit == 0 && argI toks "lie" 0 != 1 && argI toks "all" 0 != 1 then rem / x.tunit else 0)
+  match toks with
+  | "tain" :: _ =>
+    let from_ := (argI toks "from" 0).toNat
+    let gas := if argI toks "feeu" (-1) ≥ 0 then argI toks "feeu" 0 / 10 else minGas
+    -- a whole number of the TOKEN's units (the semantic check of the account input), then the state check (token funds)
+    let broken := if rem % x.tunit != 0 then some "money"
+      else if geti d.s.stok from_ < tok10 x amount then some "funds" else none
+    let (s', a) := submit d.s { kind := .xfer, from_ := from_, to := from_, amount := 0, nonce := (argI toks "nonce" 0).toNat,
+                                gas := gas, spends := 1, broken := broken }
+    let ok := (a.splitOn " admit=ok").length == 2
+    -- the state check reserves the tokens in the speculative state
+    let s'' := if ok then { s' with stok := addAt s'.stok from_ (-(tok10 x amount)) } else s'
+    let effs := if ok then d.effs ++ [(s'.txs.length - 1, [Prim.tokIn from_ (argI toks "w" 0).toNat amount])] else d.effs
+    some ({ d with s := s'', effs := effs }, a)
+  | op :: _ =>
+    if op != "tuu" && op != "tua" then none else
+    let w := (argI toks "w" 0).toNat
+    match (x.tw.getD w [])[(argI toks "in" 0).toNat]? with
+    | none => some (d, "noinput")
+    | some o =>
+      let payer := (argI toks "payer" 0).toNat
+      let amount := if op == "tua" && argI toks "all" 0 == 1 then o.amount else amount
+      let change := o.amount - amount
+      if change < 0 then some (d, "build=funds") else
+      let lie := argI toks "lie" 0 == 1 && x.tunit != 10000000000
+      if op == "tua" && rem != 0 && !lie && change == 0 then some (d, "build=other:input_money_is_not_equal_to_output_money") else
+      let to := (argI toks "to" (if op == "tuu" then 1 else 0)).toNat
+      let outs : List (Nat × Int) := (if op == "tuu" then [(to, amount)] else []) ++ (if change > 0 then [(w, change)] else [])
+      let gas : Int := if op == "tuu" then utxoGas else minGas + (if change > 0 then utxoGas else 0)
+      -- an account output written in the NATIVE unit (lie): amount·10^10 base units must be at least one unit of the token and a
+      -- whole number of them (semantic check), and then its commitment does not match (commitment equation)
+      let broken : Option String :=
+        if op == "tua" && lie then
+          (if amount * 10000000000 < x.tunit || (amount * 10000000000) % x.tunit != 0 || amount * 10000000000 / x.tunit ≥ 18446744073709551616
+            then some "money" else some "commit")
+        else if op == "tua" && rem % x.tunit != 0 then some "money" else none
+      let aout : Option (Nat × Int × Int) := if op == "tua" then some (to, amount, tok10 x amount) else none
+      let (s', a) := submit d.s { kind := .uin, spends := o.id, outs := [], gas := gas, broken := broken }
+      let ok := (a.splitOn " admit=ok").length == 2
+      let effs := if ok then d.effs ++ [(s'.txs.length - 1, [Prim.tokSpend o.id outs aout, Prim.fee payer (feeOfGas gas)])] else d.effs
+      some ({ d with s := s', effs := effs }, a)
+  | [] => none
+
 def stepS (d : Option DR) (toks : List String) : Option DR × String :=
   match toks with
+  | "tokchain" :: rest =>
+    match stepR d ("chain" :: rest) with
+    | (some d', a) =>
+      let n := (argI toks "wallets" 2).toNat
+      (some { d' with x := { d'.x with tw := List.replicate n [], tnext := 0, tunit := unitOfDec (argI toks "tokdec" 18) } }, a)
+    | r => r
+  | "tbal" :: _ =>
+    match d with
+    | some d => if d.x.tw.isEmpty then (some d, "notok") else (some d, tbalLine d.s d.x)
+    | none => (none, "nochain")
+  | "tain" :: _ | "tuu" :: _ | "tua" :: _ =>
+    match d with
+    | some d0 => if d0.x.tw.isEmpty then (some d0, "notok") else
+      match tokOp d0 toks with
+      | some (d', a) => (some d', a)
+      | none => (some d0, "bad-op")
+    | none => (none, "nochain")
   | "syschain" :: rest =>
     match stepR d ("chain" :: rest) with
     | (some d', a) =>
